@@ -235,13 +235,17 @@ Proof.
       assert (Hh : is_high c = false).
       { unfold is_high. apply andb_false_iff. destruct Hns; [left|right]; apply N.leb_gt; lia. }
       rewrite Hh. reflexivity.
-    + set (v := c - 65536). set (hi := 55296 + v / 1024). set (lo := 56320 + v mod 1024).
-      assert (Hv : v < 1048576) by (unfold v; lia).
+    + remember (c - 65536) as v eqn:Ev.
+      assert (Hcv : c = v + 65536) by lia.
+      assert (Hv : v < 1048576) by lia.
+      clear Ev.
       assert (Hq : v / 1024 < 1024) by (apply N.div_lt_upper_bound; lia).
       assert (Hr : v mod 1024 < 1024) by (apply N.mod_lt; lia).
       assert (Hdm : v = 1024 * (v / 1024) + v mod 1024) by (apply N.div_mod; lia).
-      assert (Hhi : hi < 65536 /\ 55296 <= hi /\ hi <= 56319) by (unfold hi; lia).
-      assert (Hlo : lo < 65536 /\ 56320 <= lo /\ lo <= 57343) by (unfold lo; lia).
+      remember (v / 1024) as q eqn:Eq. remember (v mod 1024) as r eqn:Er. clear Eq Er.
+      remember (55296 + q) as hi eqn:Ehi. remember (56320 + r) as lo eqn:Elo.
+      assert (Hhi : hi < 65536 /\ 55296 <= hi /\ hi <= 56319) by lia.
+      assert (Hlo : lo < 65536 /\ 56320 <= lo /\ lo <= 57343) by lia.
       unfold uesc, hex4. cbn [app]. rewrite dec_uesc, (unhex4_hex4 hi) by tauto.
       assert (Hh : is_high hi = true).
       { unfold is_high. apply andb_true_intro; split; apply N.leb_le; tauto. }
@@ -249,7 +253,7 @@ Proof.
       rewrite (unhex4_hex4 lo) by tauto.
       assert (Hl : is_low lo = true).
       { unfold is_low. apply andb_true_intro; split; apply N.leb_le; tauto. }
-      rewrite Hl. f_equal. unfold join_surrogates, hi, lo. fold v. assert (c = v + 65536) by (unfold v; lia). lia.
+      rewrite Hl. f_equal. unfold join_surrogates. lia.
 Qed.
 
 Lemma dec_enc_body s : forallb is_scalar s = true -> dec_body (enc_body s ++ [34]) = Some s.
@@ -266,6 +270,15 @@ Proof. intros H. unfold decode, encode. change (34 =? 34) with true. cbn iota. a
 (* what the encoder emits is printable ASCII (so it survives any ASCII-compatible file encoding) *)
 Lemma hexd_printable d : d < 16 -> 32 <= hexd d /\ hexd d <= 126.
 Proof. intros H. unfold hexd. destruct (N.ltb_spec d 10); lia. Qed.
+Lemma uesc_printable n : n < 65536 -> Forall (fun x => 32 <= x /\ x <= 126) (uesc n).
+Proof.
+  intros H. unfold uesc, hex4.
+  constructor; [lia|]. constructor; [lia|].
+  constructor; [apply hexd_printable, N.div_lt_upper_bound; lia|].
+  constructor; [apply hexd_printable, N.mod_lt; lia|].
+  constructor; [apply hexd_printable, N.mod_lt; lia|].
+  constructor; [apply hexd_printable, N.mod_lt; lia|]. constructor.
+Qed.
 Lemma enc_char_printable c : c < 1114112 -> Forall (fun x => 32 <= x /\ x <= 126) (enc_char c).
 Proof.
   intros Hc. unfold enc_char.
@@ -273,11 +286,395 @@ Proof.
   destruct ((32 <=? c) && (c <=? 126)) eqn:Ep.
   - apply andb_prop in Ep as [E1 E2]. apply N.leb_le in E1, E2. repeat constructor; lia.
   - destruct (N.ltb_spec c 65536).
-    + unfold uesc, hex4. repeat constructor; try lia; apply hexd_printable; lia.
-    + unfold uesc, hex4. apply Forall_app; split; repeat constructor; try lia; apply hexd_printable; lia.
+    + apply uesc_printable; assumption.
+    + assert (Hq : (c - 65536) / 1024 < 1024) by (apply N.div_lt_upper_bound; lia).
+      assert (Hr : (c - 65536) mod 1024 < 1024) by (apply N.mod_lt; lia).
+      remember ((c - 65536) / 1024) as q. remember ((c - 65536) mod 1024) as r.
+      apply Forall_app; split; apply uesc_printable; lia.
 Qed.
 Lemma encode_printable s : Forall (fun c => c < 1114112) s -> Forall (fun x => 32 <= x /\ x <= 126) (encode s).
 Proof.
   intros H. unfold encode. constructor; [lia|]. apply Forall_app; split; [|repeat constructor; lia].
   unfold enc_body. induction H as [|c s Hc Hs IH]; [constructor|]. cbn [flat_map]. apply Forall_app; split; [apply enc_char_printable, Hc|exact IH].
 Qed.
+
+(* ===================================================================================== *)
+(* 3. embedding and extraction                                                            *)
+(* ===================================================================================== *)
+Lemma closes_app_long l z : (9 <= length l)%nat -> closes (l ++ z) = closes l.
+Proof.
+  intros H. unfold closes. rewrite prefix_app_long by (change (length CLOSE) with 8%nat; lia).
+  rewrite nth_error_app1 by lia. reflexivity.
+Qed.
+
+Lemma closes_length l : closes l = true -> (9 <= length l)%nat.
+Proof.
+  unfold closes. intros H. apply andb_prop in H as [_ H].
+  destruct (nth_error l 8) eqn:E; [|discriminate].
+  assert (nth_error l 8 <> None) by congruence. apply nth_error_Some in H0. lia.
+Qed.
+
+Lemma closes_app_r l z : closes l = true -> closes (l ++ z) = true.
+Proof. intros H. rewrite closes_app_long; [exact H|apply closes_length, H]. Qed.
+
+Lemma scan_pre_sound : forall X m cur m' cur' found,
+  scan_pre m cur X = Some (m', cur', found) ->
+  forall Z, scan m cur (X ++ Z) = found ++ scan m' cur' Z.
+Proof.
+  induction X as [|c r IH]; intros m cur m' cur' found H Z.
+  - cbn [scan_pre] in H. injection H as <- <- <-. reflexivity.
+  - change ((c :: r) ++ Z) with (c :: (r ++ Z)).
+    destruct m as [|k ok|s|].
+    + cbn [scan_pre] in H. cbn [scan]. apply IH, H.
+    + cbn [scan_pre] in H. cbn [scan]. destruct (is_term c); apply IH, H.
+    + cbn [scan_pre] in H. cbn [scan]. apply IH, H.
+    + cbn [scan_pre] in H. cbn [scan].
+      destruct (Nat.leb 9 (length (c :: r))) eqn:L; [|discriminate]. apply Nat.leb_le in L.
+      change (c :: r ++ Z) with ((c :: r) ++ Z). rewrite (closes_app_long _ Z L).
+      destruct (closes (c :: r)).
+      * destruct (scan_pre (MTag false) [] r) as [[[m2 cur2] f2]|] eqn:E; [|discriminate].
+        injection H as <- <- <-. cbn [app]. f_equal. apply (IH _ _ _ _ _ E).
+      * apply IH, H.
+Qed.
+
+Lemma CLOSE_eq : CLOSE = 60 :: tl CLOSE.
+Proof. reflexivity. Qed.
+
+(* script data that contains no "</script" and is followed by a character that is not in
+   "</script" runs to the closing tag *)
+Lemma scan_data_take : forall D0 cur e W,
+  occurs lowc CLOSE D0 = false -> memN (lowc e) CLOSE = false -> closes W = true ->
+  scan MScript cur (D0 ++ e :: W) = (rev cur ++ D0 ++ [e]) :: scan (MTag false) [] (tl W).
+Proof.
+  induction D0 as [|d D0 IH]; intros cur e W Ho He Hw.
+  - cbn [app]. destruct W as [|w W']; [discriminate|].
+    assert (Hc : closes (e :: w :: W') = false).
+    { unfold closes. rewrite CLOSE_eq. cbn [prefix].
+      rewrite CLOSE_eq in He. cbn [memN] in He. apply orb_false_elim in He as [He1 _].
+      rewrite He1. reflexivity. }
+    cbn [scan]. rewrite Hc.
+    change (scan MScript (e :: cur) (w :: W')) with
+      (if closes (w :: W') then rev (e :: cur) :: scan (MTag false) [] W' else scan MScript (w :: e :: cur) W').
+    rewrite Hw. reflexivity.
+  - change ((d :: D0) ++ e :: W) with (d :: (D0 ++ e :: W)).
+    cbn [occurs] in Ho. apply orb_false_elim in Ho as [Ho1 Ho2].
+    assert (Hc : closes (d :: D0 ++ e :: W) = false).
+    { unfold closes. destruct (prefix lowc CLOSE (d :: D0 ++ e :: W)) eqn:E; [|reflexivity].
+      change (d :: D0 ++ e :: W) with ((d :: D0) ++ e :: W) in E.
+      destruct (prefix_app_hd lowc _ _ _ _ E); congruence. }
+    cbn [scan]. rewrite Hc. rewrite (IH _ _ _ Ho2 He Hw). cbn [rev app]. rewrite <- !app_assoc. reflexivity.
+Qed.
+
+Lemma embed_unfold tpl css js j :
+  embed tpl css js j = repl JS_PH js (repl DATA_PH (data_script j) (repl CSS_PH css tpl)).
+Proof. reflexivity. Qed.
+
+Lemma pfx_eq : Emb.data_prefix = 119 :: tl Emb.data_prefix.
+Proof. reflexivity. Qed.
+Lemma sfx_eq : Emb.data_suffix = [59].
+Proof. reflexivity. Qed.
+Lemma JS_PH_eq : JS_PH = 47 :: tl JS_PH.
+Proof. reflexivity. Qed.
+Lemma JS_PH_ne : JS_PH <> [].
+Proof. discriminate. Qed.
+Lemma DATA_PH_ne : DATA_PH <> [].
+Proof. discriminate. Qed.
+
+Lemma occurs_js_data j : no_js_placeholder j = true -> occurs idc JS_PH (data_script j) = false.
+Proof.
+  intros H. unfold no_js_placeholder in H. apply negb_true_iff in H.
+  unfold data_script. rewrite JS_PH_eq. rewrite occurs_skip by (vm_compute; reflexivity).
+  rewrite <- JS_PH_eq. rewrite sfx_eq.
+  apply occurs_app_hd; [apply JS_PH_ne|exact H|vm_compute; reflexivity|vm_compute; reflexivity].
+Qed.
+
+Inductive shape (js j doc : text) : Prop :=
+| mk_shape (X Y1 Y2 : text) (found : list text)
+    (sh_doc : doc = X ++ data_script j ++ Y1 ++ js ++ Y2)
+    (sh_scan : scan_pre MData [] X = Some (MScript, [], found))
+    (sh_none : forallb (fun t => negb (is_data_script t)) found = true)
+    (sh_close : closes Y1 = true).
+
+(* with a well-formed template and no JS placeholder inside the data, the three replacements
+   put the data script, verbatim, into the data element *)
+Lemma embed_shape tpl css js j :
+  tpl_ok tpl css = true -> no_js_placeholder j = true -> shape js j (embed tpl css js j).
+Proof.
+  intros Hok Hj. rewrite embed_unfold. unfold tpl_ok in Hok.
+  destruct (find_split DATA_PH (repl CSS_PH css tpl)) as [[X Y]|] eqn:FD; [|discriminate].
+  repeat (apply andb_prop in Hok as [Hok ?]).
+  rename H into HJS, H0 into HY0, H1 into HSC, H2 into HXJ. rename Hok into HDY.
+  destruct (find_split DATA_PH Y) eqn:FDY; [discriminate|].
+  apply negb_true_iff in HXJ.
+  destruct (scan_pre MData [] X) as [[[m0 cur0] found0]|] eqn:SP; [|discriminate].
+  destruct m0; try discriminate. destruct cur0; [|discriminate].
+  destruct Y as [|c0 Y0]; [discriminate|]. apply negb_true_iff in HY0.
+  destruct (find_split JS_PH (c0 :: Y0)) as [[Y1 Y2]|] eqn:FJ; [|discriminate].
+  apply andb_prop in HJS as [HC HJ2]. destruct (find_split JS_PH Y2) eqn:FJ2; [discriminate|].
+  rewrite (repl_once _ _ _ _ _ FD FDY).
+  pose proof (occurs_js_data _ Hj) as HD.
+  assert (F1 : find_split JS_PH (X ++ data_script j ++ c0 :: Y0) = Some (X ++ data_script j ++ Y1, Y2)).
+  { assert (HDh : exists D', data_script j = 119 :: D') by (eexists; reflexivity).
+    destruct HDh as [D' HD']. rewrite HD' at 1. cbn [app].
+    rewrite (find_app_hd _ JS_PH_ne X 119 _ HXJ) by (vm_compute; reflexivity).
+    change (119 :: D' ++ c0 :: Y0) with ((119 :: D') ++ c0 :: Y0). rewrite <- HD'.
+    rewrite (find_app_hd _ JS_PH_ne (data_script j) c0 Y0 HD HY0), FJ. reflexivity. }
+  rewrite (repl_once _ _ _ _ _ F1 FJ2).
+  apply (mk_shape _ _ _ X Y1 Y2 found0); [|exact SP|exact HSC|exact HC].
+  rewrite <- !app_assoc. reflexivity.
+Qed.
+
+Lemma filter_none {A} (P : A -> bool) l : forallb (fun t => negb (P t)) l = true -> filter P l = [].
+Proof.
+  induction l as [|x l IH]; intros H; [reflexivity|]. cbn [forallb] in H. apply andb_prop in H as [H1 H2].
+  apply negb_true_iff in H1. cbn [filter]. rewrite H1. apply IH, H2.
+Qed.
+
+Lemma skipn_app_exact {A} (a b : list A) : skipn (length a) (a ++ b) = b.
+Proof. induction a; [reflexivity|assumption]. Qed.
+Lemma firstn_app_exact {A} (a b : list A) : firstn (length a) (a ++ b) = a.
+Proof. induction a as [|x a IH]; [reflexivity|]. cbn [length app firstn]. f_equal. exact IH. Qed.
+
+Lemma strip_data_script j : strip_data (data_script j) = Some j.
+Proof.
+  unfold strip_data, is_data_script, data_script. rewrite prefix_id_self, skipn_app_exact.
+  rewrite sfx_eq. unfold ends_with. rewrite rev_app_distr. cbn [rev app prefix].
+  unfold idc at 1. rewrite N.eqb_refl. cbn [andb].
+  rewrite app_length. cbn [length]. replace (length j + 1 - 1)%nat with (length j) by lia.
+  rewrite firstn_app_exact. reflexivity.
+Qed.
+
+Lemma extract_of_shape js j doc :
+  shape js j doc -> no_script_close j = true -> extract_script doc = Some j.
+Proof.
+  intros [X Y1 Y2 found0 Hdoc Hscan Hnone Hclose] Hj. subst doc.
+  unfold no_script_close in Hj. apply negb_true_iff in Hj.
+  unfold extract_script. rewrite (scan_pre_sound _ _ _ _ _ _ Hscan).
+  assert (Hd : data_script j ++ Y1 ++ js ++ Y2 = (Emb.data_prefix ++ j) ++ 59 :: (Y1 ++ js ++ Y2)).
+  { unfold data_script. rewrite sfx_eq, <- !app_assoc. reflexivity. }
+  rewrite Hd. rewrite scan_data_take.
+  - rewrite filter_app, (filter_none _ _ Hnone). cbn [app rev filter].
+    assert (Hd2 : (Emb.data_prefix ++ j) ++ [59] = data_script j).
+    { unfold data_script. rewrite sfx_eq, <- app_assoc. reflexivity. }
+    rewrite Hd2.
+    assert (Hi : is_data_script (data_script j) = true) by apply prefix_id_self.
+    rewrite Hi. apply strip_data_script.
+  - rewrite CLOSE_eq, occurs_skip by (vm_compute; reflexivity). rewrite <- CLOSE_eq. exact Hj.
+  - vm_compute; reflexivity.
+  - apply closes_app_r, Hclose.
+Qed.
+
+(* ===================================================================================== *)
+(* 4. merchants by id, category view                                                      *)
+(* ===================================================================================== *)
+Open Scope Z_scope.
+
+Lemma text_eqb_eq a : forall b, text_eqb a b = true <-> a = b.
+Proof.
+  induction a as [|x a IH]; intros [|y b]; simpl; split; intros H; try reflexivity; try discriminate.
+  - apply andb_prop in H as [H1 H2]. apply N.eqb_eq in H1. apply IH in H2. congruence.
+  - injection H as -> ->. rewrite N.eqb_refl. apply IH. reflexivity.
+Qed.
+Lemma text_eqb_refl a : text_eqb a a = true.
+Proof. apply text_eqb_eq. reflexivity. Qed.
+Lemma text_eqb_neq a b : a <> b -> text_eqb a b = false.
+Proof. intros H. destruct (text_eqb a b) eqn:E; [apply text_eqb_eq in E; contradiction|reflexivity]. Qed.
+
+Definition keys {V} (d : list (text * V)) : list text := map fst d.
+
+Lemma tset_notin {V} (d : list (text * V)) k v : ~ In k (keys d) -> tset d k v = d ++ [(k, v)].
+Proof.
+  induction d as [|[k' v'] d IH]; intros H; [reflexivity|].
+  cbn [tset]. rewrite text_eqb_neq by (intros ->; apply H; left; reflexivity).
+  cbn [app]. f_equal. apply IH. intros G. apply H. right. exact G.
+Qed.
+
+Lemma tset_keys {V} (d : list (text * V)) k v :
+  keys (tset d k v) = if existsb (text_eqb k) (keys d) then keys d else keys d ++ [k].
+Proof.
+  induction d as [|[k' v'] d IH]; [reflexivity|].
+  cbn [tset keys map fst existsb]. destruct (text_eqb k k') eqn:E; cbn [orb]; [reflexivity|].
+  cbn [map fst]. fold (keys (tset d k v)). rewrite IH. fold (keys d).
+  destruct (existsb (text_eqb k) (keys d)); reflexivity.
+Qed.
+
+Lemma existsb_text_In k l : existsb (text_eqb k) l = true <-> In k l.
+Proof.
+  rewrite existsb_exists. split.
+  - intros [x [Hx E]]. apply text_eqb_eq in E. subst. exact Hx.
+  - intros H. exists k. split; [exact H|apply text_eqb_refl].
+Qed.
+
+Lemma nodup_snoc {A} (l : list A) k : NoDup l -> ~ In k l -> NoDup (l ++ [k]).
+Proof.
+  intros H1 H2. apply (Permutation_NoDup (Permutation_cons_append l k)). constructor; assumption.
+Qed.
+
+Lemma tset_keys_nodup {V} (d : list (text * V)) k v : NoDup (keys d) -> NoDup (keys (tset d k v)).
+Proof.
+  intros H. rewrite tset_keys. destruct (existsb (text_eqb k) (keys d)) eqn:E; [exact H|].
+  apply nodup_snoc; [exact H|]. intros G. apply existsb_text_In in G. congruence.
+Qed.
+
+Definition jpair (m : merchant) : text * jmerchant := (mid m, to_j m).
+
+Lemma by_id_fold_keys_nodup ms : forall acc, NoDup (keys acc) ->
+  NoDup (keys (fold_left (fun d m => tset d (mid m) (to_j m)) ms acc)).
+Proof. induction ms as [|m ms IH]; intros acc H; [exact H|]. cbn [fold_left]. apply IH, tset_keys_nodup, H. Qed.
+
+(* ids are dict keys: build_section_merchants never lists an id twice *)
+Lemma by_id_keys_nodup ms : NoDup (keys (by_id ms)).
+Proof. apply by_id_fold_keys_nodup. constructor. Qed.
+
+Lemma by_id_fold_nodup ms : forall acc, NoDup (keys acc ++ map mid ms) ->
+  fold_left (fun d m => tset d (mid m) (to_j m)) ms acc = acc ++ map jpair ms.
+Proof.
+  induction ms as [|m ms IH]; intros acc H; [cbn; now rewrite app_nil_r|].
+  cbn [fold_left map]. cbn [map] in H.
+  assert (Hn : ~ In (mid m) (keys acc)).
+  { intros G. apply NoDup_remove_2 in H. apply H. apply in_or_app. left. exact G. }
+  rewrite (tset_notin _ _ _ Hn). rewrite IH.
+  - rewrite <- app_assoc. reflexivity.
+  - unfold keys. rewrite map_app. cbn [map fst]. rewrite <- app_assoc. exact H.
+Qed.
+
+(* when the derived ids are distinct every analysed merchant is listed, in order *)
+Lemma by_id_nodup ms : NoDup (map mid ms) -> by_id ms = map jpair ms.
+Proof. intros H. unfold by_id. rewrite by_id_fold_nodup; [reflexivity|exact H]. Qed.
+
+(* ---- grouping by category / subcategory ------------------------------------------------ *)
+Lemma add_sub_pairs subs sn id j : ~ In id (keys (flat_map sub_pairs subs)) ->
+  Permutation (flat_map sub_pairs (add_sub subs sn id j)) ((id, j) :: flat_map sub_pairs subs).
+Proof.
+  induction subs as [|s r IH]; intros H; [apply Permutation_refl|].
+  cbn [add_sub]. destruct (text_eqb sn (s_name s)).
+  - cbn [flat_map]. unfold sub_pairs at 1 3. cbn [s_merchants].
+    rewrite tset_notin.
+    + rewrite <- app_assoc. cbn [app]. apply Permutation_sym, Permutation_middle.
+    + intros G. apply H. cbn [flat_map]. unfold keys. rewrite map_app. apply in_or_app. left. exact G.
+  - cbn [flat_map]. etransitivity; [apply Permutation_app_head, IH|apply Permutation_sym, Permutation_middle].
+    intros G. apply H. cbn [flat_map]. unfold keys. rewrite map_app. apply in_or_app. right. exact G.
+Qed.
+
+Lemma add_cat_pairs cs cn sn id j : ~ In id (keys (view_pairs cs)) ->
+  Permutation (view_pairs (add_cat cs cn sn id j)) ((id, j) :: view_pairs cs).
+Proof.
+  unfold view_pairs. induction cs as [|c r IH]; intros H.
+  - cbn. apply Permutation_refl.
+  - cbn [add_cat]. destruct (text_eqb cn (c_name c)).
+    + cbn [flat_map]. unfold cat_pairs at 1 3. cbn [c_subs].
+      change ((id, j) :: flat_map sub_pairs (c_subs c) ++ flat_map cat_pairs r)
+        with (((id, j) :: flat_map sub_pairs (c_subs c)) ++ flat_map cat_pairs r).
+      apply Permutation_app_tail, add_sub_pairs.
+      intros G. apply H. cbn [flat_map]. unfold keys. rewrite map_app. apply in_or_app. left. exact G.
+    + cbn [flat_map]. etransitivity; [apply Permutation_app_head, IH|apply Permutation_sym, Permutation_middle].
+      intros G. apply H. cbn [flat_map]. unfold keys. rewrite map_app. apply in_or_app. right. exact G.
+Qed.
+
+Lemma ins_pairs cs p : ~ In (fst p) (keys (view_pairs cs)) ->
+  Permutation (view_pairs (ins cs p)) (p :: view_pairs cs).
+Proof. intros H. unfold ins. destruct p as [id j]. apply add_cat_pairs, H. Qed.
+
+Lemma group_fold l : forall cs, NoDup (keys (view_pairs cs) ++ keys l) ->
+  Permutation (view_pairs (fold_left ins l cs)) (view_pairs cs ++ l).
+Proof.
+  induction l as [|p l IH]; intros cs H; [cbn; now rewrite app_nil_r|].
+  cbn [fold_left]. cbn [keys map] in H.
+  assert (Hn : ~ In (fst p) (keys (view_pairs cs))).
+  { intros G. apply NoDup_remove_2 in H. apply H. apply in_or_app. left. exact G. }
+  pose proof (ins_pairs _ _ Hn) as HP.
+  etransitivity; [apply IH|].
+  - apply (Permutation_NoDup (l := fst p :: keys (view_pairs cs) ++ keys l)).
+    + change (fst p :: keys (view_pairs cs) ++ keys l) with ((fst p :: keys (view_pairs cs)) ++ keys l).
+      apply Permutation_app_tail. apply Permutation_sym. apply (Permutation_map fst) in HP. exact HP.
+    + apply (Permutation_NoDup (Permutation_sym (Permutation_middle _ _ _))). exact H.
+  - etransitivity; [apply Permutation_app_tail, HP|]. cbn [app]. apply Permutation_middle.
+Qed.
+
+(* the category view lists exactly the merchants of by_id, each once *)
+Lemma group_pairs l : NoDup (keys l) -> Permutation (view_pairs (group l)) l.
+Proof. intros H. unfold group. apply (group_fold l []). exact H. Qed.
+
+Lemma category_view_pairs ms : Permutation (view_pairs (category_view ms)) (by_id ms).
+Proof. apply group_pairs, by_id_keys_nodup. Qed.
+
+Lemma category_view_merchants ms : NoDup (map mid ms) ->
+  Permutation (view_merchants (category_view ms)) (map to_j ms).
+Proof.
+  intros H. unfold view_merchants. etransitivity; [apply Permutation_map, category_view_pairs|].
+  rewrite (by_id_nodup _ H), map_map. apply Permutation_refl.
+Qed.
+
+(* ---- sums ------------------------------------------------------------------------------ *)
+Lemma sumZ_app a b : sumZ (a ++ b) = sumZ a + sumZ b.
+Proof. induction a as [|x a IH]; simpl; lia. Qed.
+Lemma sumZ_perm a b : Permutation a b -> sumZ a = sumZ b.
+Proof. induction 1; simpl; lia. Qed.
+
+Lemma add_cat_total cs cn sn id j :
+  sumZ (map c_total (add_cat cs cn sn id j)) = sumZ (map c_total cs) + j_ytd j /\
+  sumZ (map c_count (add_cat cs cn sn id j)) = sumZ (map c_count cs) + j_count j.
+Proof.
+  induction cs as [|c r [IH1 IH2]]; [cbn; lia|].
+  cbn [add_cat]. destruct (text_eqb cn (c_name c)); cbn [map sumZ fold_right c_total c_count].
+  - fold (sumZ (map c_total r)). fold (sumZ (map c_count r)). lia.
+  - fold (sumZ (map c_total (add_cat r cn sn id j))). fold (sumZ (map c_count (add_cat r cn sn id j))).
+    fold (sumZ (map c_total r)). fold (sumZ (map c_count r)). lia.
+Qed.
+
+Lemma group_fold_total l : forall cs,
+  sumZ (map c_total (fold_left ins l cs)) = sumZ (map c_total cs) + sumZ (map (fun p => j_ytd (snd p)) l) /\
+  sumZ (map c_count (fold_left ins l cs)) = sumZ (map c_count cs) + sumZ (map (fun p => j_count (snd p)) l).
+Proof.
+  induction l as [|p l IH]; intros cs; [cbn; lia|].
+  cbn [fold_left map]. destruct (IH (ins cs p)) as [I1 I2]. rewrite I1, I2. unfold ins.
+  destruct (add_cat_total cs (fst (cat_key (snd p))) (snd (cat_key (snd p))) (fst p) (snd p)) as [A1 A2].
+  rewrite A1, A2. cbn [sumZ fold_right]. fold (sumZ (map (fun p0 => j_ytd (snd p0)) l)).
+  fold (sumZ (map (fun p0 => j_count (snd p0)) l)). lia.
+Qed.
+
+(* the category totals add up to the totals of the merchants that are listed *)
+Lemma category_totals_listed ms :
+  sumZ (map c_total (category_view ms)) = sumZ (map j_ytd (view_merchants (category_view ms))) /\
+  sumZ (map c_count (category_view ms)) = sumZ (map j_count (view_merchants (category_view ms))).
+Proof.
+  unfold category_view at 1 3, group. destruct (group_fold_total (by_id ms) []) as [H1 H2].
+  rewrite H1, H2. cbn [map sumZ fold_right].
+  pose proof (category_view_pairs ms) as HP. unfold view_merchants.
+  split.
+  - rewrite map_map. rewrite (sumZ_perm _ _ (Permutation_map (fun p => j_ytd (snd p)) HP)). reflexivity.
+  - rewrite map_map. rewrite (sumZ_perm _ _ (Permutation_map (fun p => j_count (snd p)) HP)). reflexivity.
+Qed.
+
+Lemma category_totals ms : NoDup (map mid ms) ->
+  sumZ (map c_total (category_view ms)) = sumZ (map m_total ms) /\
+  sumZ (map c_count (category_view ms)) = sumZ (map m_count ms).
+Proof.
+  intros H. destruct (category_totals_listed ms) as [H1 H2]. rewrite H1, H2.
+  pose proof (category_view_merchants _ H) as HP.
+  rewrite (sumZ_perm _ _ (Permutation_map j_ytd HP)), (sumZ_perm _ _ (Permutation_map j_count HP)).
+  rewrite !map_map. split; reflexivity.
+Qed.
+
+(* ---- transactions ---------------------------------------------------------------------- *)
+Lemma perm_flat_map {A B} (f : A -> list B) l l' : Permutation l l' -> Permutation (flat_map f l) (flat_map f l').
+Proof.
+  induction 1; cbn [flat_map].
+  - apply Permutation_refl.
+  - apply Permutation_app_head. assumption.
+  - rewrite !app_assoc. apply Permutation_app_tail, Permutation_app_comm.
+  - etransitivity; eassumption.
+Qed.
+
+Lemma named_txns_to_j ms : named_txns_j (map to_j ms) = named_txns ms.
+Proof. unfold named_txns_j, named_txns. induction ms as [|m ms IH]; [reflexivity|]. cbn [map flat_map]. rewrite IH. reflexivity. Qed.
+
+Lemma category_view_txns ms : NoDup (map mid ms) ->
+  Permutation (named_txns_j (view_merchants (category_view ms))) (named_txns ms).
+Proof.
+  intros H. rewrite <- named_txns_to_j. apply perm_flat_map, category_view_merchants, H.
+Qed.
+
+(* a view's merchants (sections): same statement for build_section_merchants on its own *)
+Lemma section_merchants ms : NoDup (map mid ms) -> map snd (by_id ms) = map to_j ms.
+Proof. intros H. rewrite (by_id_nodup _ H), map_map. reflexivity. Qed.
